@@ -161,6 +161,13 @@ def families(seed, tier):
              op("dial"), await_("X", "up"), await_("Y", "up"), op("settle", quiet=200, ms=2000),
              op("stall", ep="X", cls="proto", on=True), open_("Y"), op("pump", ep="Y", ms=300), val("X", ("accept", "reject")[i % 4 == 3], wait=0),
              op("stall", ep="X", cls="proto", on=False), op("pump", ms=600)])
+    # the remote answers Accept after the opener's 10 s timeout; the opener retries while the leftover substream of that
+    # late accept is being read: the retry is silently dropped
+    for i in range(4 if tier == "quick" else 24):
+        k = i % 8
+        add("late-accept-retry", cfg(0, perturb=i % 3),
+            [open_("X"), await_("Y", "asked"), await_("X", "answered", ms=15000), op("pump", ms=100), val("Y", "accept", wait=0)] +
+            ([op("pump", ms=k)] if k else []) + [open_("X"), op("pump", ms=500)])
     # scenarios that wait for litep2p's compile-time timers (10 s negotiation): few in quick
     nslow = 2 if tier == "quick" else 10
     for i in range(nslow):
@@ -283,7 +290,8 @@ def script_from_behaviour(b, idx, seed, consts, paced):
 
 # ----------------------------------------------------------------------------- model checking
 
-TAGS = {"stale-shutdown-notice", "panic-after-stale-shutdown-notice", "report-overtakes-closed", "stale-validation-result"}
+TAGS = {"stale-shutdown-notice", "panic-after-stale-shutdown-notice", "report-overtakes-closed", "stale-validation-result",
+        "ignored-open-never-answered"}
 MC_LINES = ["SPECIFICATION Spec", "INVARIANTS MonOK NoUnknownPanic QuiesceOK", "CHECK_DEADLOCK FALSE"]
 
 
